@@ -41,9 +41,10 @@ var pool = []text{
 	{"gdup.yang", `module g { ` + H("g") + ` leaf other { type string; } typedef t { type int64; } }`, "g", true},
 	// two revisions of one module, and an importer that pins the older one: once both are loaded the
 	// namespace is that of two modules
-	{"v1.yang", `module v { ` + H("v") + ` revision 2020-01-01; container vc { leaf old { type string; } } identity vi; }`, "v@2020-01-01", true},
-	{"v2.yang", `module v { ` + H("v") + ` revision 2021-06-01; revision 2020-01-01; container vc { leaf new { type string; } } identity vi; identity vj { base vi; } }`, "v@2021-06-01", true},
-	{"w.yang", `module w { ` + H("w") + ` import v { prefix v; revision-date 2020-01-01; } identity wi { base v:vi; } augment /v:vc { leaf wa { type string; } } }`, "w", true},
+	{"v1.yang", `module v { ` + H("v") + ` revision 2020-01-01; typedef vt { type int8 { range "1..9"; } units old; default 3; } grouping vg { leaf gold { type vt; } container gc { leaf deep { type string; } } } container vc { leaf old { type vt; } } identity vi; }`, "v@2020-01-01", true},
+	{"v2.yang", `module v { ` + H("v") + ` revision 2021-06-01; revision 2020-01-01; import g { prefix g; } typedef vt { type string { length "1..4"; pattern "a+"; } units new; } grouping vg { leaf gnew { type vt; } leaf-list gll { type vt; } } container vc { leaf new { type vt; } } identity vi; identity vj { base vi; } deviation /g:c/g:x { deviate add { default 5; } } }`, "v@2021-06-01", true},
+	{"w.yang", `module w { ` + H("w") + ` import v { prefix v; revision-date 2020-01-01; } identity wi { base v:vi; } augment /v:vc { leaf wa { type v:vt; } } typedef wt { type v:vt; } leaf wl { type wt; } container wu { uses v:vg; } }`, "w", true},
+	{"x.yang", `module x { ` + H("x") + ` import v { prefix v; } identity xi { base v:vi; } typedef xt { type v:vt; } leaf xl { type xt; } leaf xl2 { type v:vt; } container xu { uses v:vg; } grouping xg { uses v:vg; } container xu2 { uses xg; } leaf xr { type identityref { base v:vi; } } }`, "x", true},
 	{"nomand.yang", `module nm { prefix nm; typedef z { type int8; } container nc { typedef nz { type int8 { range "5..1"; } } list nl { typedef nz2 { type nosuch2; } key k; leaf k { type nz2; } } } }`, "", false},
 }
 
@@ -399,6 +400,11 @@ func classes(h []int) []string {
 			}
 		}
 	}
+	// a revision of module v arrives after a processing run that has bound an importer of v (w pins
+	// the older revision, x takes the latest) to the other revision
+	if lateRevision(h) {
+		cl = append(cl, "revision-of-an-imported-module-loaded-after-a-processing-run")
+	}
 	if procs > 1 {
 		cl = append(cl, "processed-more-than-once")
 	}
@@ -409,6 +415,44 @@ func classes(h []int) []string {
 		cl = append(cl, "load-after-process")
 	}
 	return cl
+}
+
+func poolIndex(name string) int {
+	for i, t := range pool {
+		if t.name == name {
+			return i
+		}
+	}
+	panic("no text " + name)
+}
+
+// lateRevision: one revision of v and an importer of v are loaded, a processing run follows, and
+// the other revision of v is loaded after it.
+func lateRevision(h []int) bool {
+	v1, v2, w, x := poolIndex("v1.yang"), poolIndex("v2.yang"), poolIndex("w.yang"), poolIndex("x.yang")
+	have := map[int]bool{}
+	bound := -1 // the revision of v an importer was bound to by a processing run (or, once a run has taken place, by a read: it builds the trees)
+	processed := false
+	for _, o := range h {
+		if o == opProcess || o == opGet {
+			processed = true
+		}
+		switch {
+		case o == opProcess || o == opGet || (o == opRead && processed):
+			if (have[w] || have[x]) && (have[v1] != have[v2]) && bound < 0 {
+				bound = v1
+				if have[v2] {
+					bound = v2
+				}
+			}
+		case o >= 0:
+			if bound >= 0 && (o == v1 || o == v2) && o != bound && !have[o] {
+				return true
+			}
+			have[o] = true
+		}
+	}
+	return false
 }
 
 func replay(tier string, raw json.RawMessage) (bool, string, string) {
